@@ -57,6 +57,7 @@ type Tape struct {
 	KnownID   string     `json:"known_finding,omitempty"`
 	Solver    string     `json:"solver"`
 	UsesClock bool       `json:"uses_clock"`
+	GateOrder []int      `json:"gate_order,omitempty"` // order in which gated goroutines (verif_GoGate) first ran
 }
 
 type Event struct {
@@ -145,6 +146,8 @@ type Engine struct {
 	anyOrder    bool
 	clockPinned bool
 	timers      []*ChanObj // every timer channel created on this path (idle clock advance)
+	ngates      int        // gated goroutines created on this path (verif_GoGate)
+	gateOrder   []int      // their first-activation order
 	fmtLenient  bool
 	usedClock   bool
 	lastFn      string
@@ -585,6 +588,7 @@ func (e *Engine) mkTape(kind, label string, m Model, msg string) *Tape {
 	}
 	t.Sched = append([]int{}, e.sched...)
 	t.UsesClock = e.usedClock
+	t.GateOrder = append([]int{}, e.gateOrder...)
 	return t
 }
 
@@ -730,6 +734,8 @@ func (e *Engine) RunPath(entry *ssa.Function, item WorkItem) (res *PathResult) {
 	e.anyOrder = false
 	e.clockPinned = false
 	e.timers = nil
+	e.ngates = 0
+	e.gateOrder = nil
 	e.usedClock = false
 	e.randInts = 0
 	e.syncMaps = nil
@@ -747,7 +753,7 @@ func (e *Engine) RunPath(entry *ssa.Function, item WorkItem) (res *PathResult) {
 		res.NDec = len(e.taken)
 	}()
 
-	main := &Thread{id: 0, e: e, wake: make(chan struct{}, 1), name: "main"}
+	main := &Thread{id: 0, e: e, wake: make(chan struct{}, 1), name: "main", gate: -1}
 	e.threads = []*Thread{main}
 	e.cur = main
 
